@@ -356,6 +356,33 @@ def check_pairing(P, R):
                           "out as LF in sed mode")
 
 
+def check_pairing_all(P, R):
+    """RF-pair (every consumer): whichever function takes a line from the reader (prchunk_getline) and puts the newline back in place
+    to copy the line through must put the carriage return back as well -- the reader took both"""
+    rule = "RF-pair"
+    n = 0
+    for f in P.all_functions():
+        if getattr(f, "body", None) is None or f.name == "proc_line" or "/lib/" in f.file or f.file.startswith("lib/"):
+            continue
+        if not any(c.get("callee") == "prchunk_getline" for c in f.calls()):
+            continue
+        nl = [x for x in f.walk() if x.get("k") == "BinaryOperator" and x.get("op") == "=" and const_of(x["c"][1]) == 10 and
+              strip(x["c"][0]) is not None and strip(x["c"][0]).get("k") == "ArraySubscriptExpr"]
+        if not nl:
+            continue
+        n += 1
+        R.saw(f)
+        cr = [x for x in f.walk() if x.get("k") == "BinaryOperator" and x.get("op") == "=" and const_of(x["c"][1]) == 13]
+        asks = any(c.get("callee") == "prchunk_crlfp" for c in f.calls())
+        if cr and asks:
+            R.ob(rule, "%s (%s): carriage return restored where the reader says it took one" % (f.name, f.file), True)
+        else:
+            R.finding(rule, f, "carriage return restore [%s]" % f.name, "this function takes lines from the reader and puts the newline back in "
+                      "place to copy a line through, but never asks whether the reader took a carriage return as well "
+                      "(prchunk_crlfp) and never puts one back: CRLF lines come out as LF", nl[0])
+    return n
+
+
 def _lin(e, env):
     """symbolic linear form of an integer/pointer expression: {symbol: coefficient}, constant under key 1"""
     e = strip(e)
@@ -596,6 +623,61 @@ def check_shortread(P, R):
     R.floor(rule, "tests of the count read() returned in prchunk.c", n, 3)
 
 
+def check_counted(P, R):
+    """RF-count: the reader hands out the lines below its line count.  Where prchunk_fill records the end of a line under the
+    current count (`set_loff(ctx, ctx->tot_lno, ...)`) it takes the line's bytes for consumed, so the count must go up before
+    control leaves that stretch of code -- a line recorded but not counted is never handed out, and nothing reads it again."""
+    rule = "RF-count"
+    tu = P.tu("prchunk.c")
+    fn = tu.func("prchunk_fill")
+    if fn is None:
+        raise AnalysisBroken("prchunk_fill vanished")
+    R.saw(fn)
+
+    def bumps(node):
+        for y in walk(node):
+            if y.get("k") == "UnaryOperator" and y.get("op") in ("++", "pre++", "post++", "++pre", "++post") and "tot_lno" in expr_text(y):
+                return True
+            if y.get("k") == "UnaryOperator" and "++" in str(y.get("op")) and "tot_lno" in expr_text(y):
+                return True
+            if y.get("k") in ("CompoundAssignOperator", "BinaryOperator") and y.get("op") in ("+=",) and "tot_lno" in expr_text(y["c"][0]):
+                return True
+            if y.get("k") == "BinaryOperator" and y.get("op") == "=" and "tot_lno" in expr_text(y["c"][0]) and "tot_lno" in expr_text(y["c"][1]) and "+" in expr_text(y["c"][1]):
+                return True
+        return False
+    n = 0
+    for x in fn.walk():
+        if x.get("k") != "CallExpr" or x.get("callee") != "set_loff":
+            continue
+        args = call_args(x)
+        if len(args) < 2 or "tot_lno" not in expr_text(args[1]):
+            continue
+        n += 1
+        # the statement holding the call, and the block it sits in
+        st = x
+        blk = fn.parent(st)
+        while blk is not None and blk.get("k") != "CompoundStmt":
+            st, blk = blk, fn.parent(blk)
+        if blk is None:
+            raise AnalysisBroken("%s: set_loff outside a block" % rule)
+        sibs = [c for c in blk.get("c", []) if c is not None]
+        i = [k for k, c in enumerate(sibs) if c is st][0]
+        found = False
+        for c in sibs[i + 1:]:
+            if bumps(c):
+                found = True
+                break
+            if c.get("k") in ("GotoStmt", "ReturnStmt", "BreakStmt", "ContinueStmt"):
+                break
+        if found:
+            R.ob(rule, "prchunk_fill line %s: the line recorded under the count is counted before control leaves" % x.get("l"), True)
+        else:
+            R.finding(rule, fn, "set_loff at line %s" % x.get("l"), "a line end is recorded under the current line count and its bytes are taken "
+                      "for consumed, but the count does not go up before control leaves this stretch: the line is never handed out "
+                      "(prchunk_haslinep stops below the count) and never read again -- it is lost", x)
+    R.floor(rule, "line ends recorded in prchunk_fill", n, 3)
+
+
 def check_rewind(P, R):
     """RF-rewind: a fill starts a new window (the line count is zeroed on entry); the reader's position in the window must be zeroed
     on every path that hands the window out (returns 0), or the first lines of the new window are skipped"""
@@ -700,9 +782,12 @@ def check(P, R, tier):
     check_rewind(P, R)
     check_eof(P, R)
     check_shortread(P, R)
+    check_counted(P, R)
     check_terminated(P, R)
     check_window(P, R)
     check_pairing(P, R)
+    npa = check_pairing_all(P, R)
+    R.floor("RF-pair", "other consumers that copy lines through in place", npa, 1)
     check_sed(P, R)
     import finddecode
     nf = finddecode.run(R, P, "RF2-find")
